@@ -898,6 +898,9 @@ class Sym:
                 env.vars.update(b_)
                 continue
             if st[0] == "let":
+                if st[1][0] == "pid" and st[1][1] in getattr(self, "opaque_lets", {}):      # a binding whose initialiser is not executed
+                    env.vars[st[1][1]] = self.opaque_lets[st[1][1]]                      # (the MaybeUninit plumbing of Median::default)
+                    continue
                 if st[1][0] == "pid" and st[2][0] == "mcall" and st[2][2] == "state_mut" and not st[2][3]:
                     root, path = self.lpath(st[2])
                     env.vars[st[1][1]] = ("ref", root, path)
